@@ -898,3 +898,7 @@ impl<'ref_str, T: Into<Segment<'ref_str>>> Add<T> for CommonJsStringBuilder<'ref
         self
     }
 }
+
+#[cfg(kani)]
+#[path = "/verif/kani/string_in/builder_seg.rs"]
+mod verif_kani;
